@@ -44,8 +44,11 @@ impl StateMachine<'_> {
                         .paint(commit.chars().take(12).collect::<String>()),
                 )?;
             }
+            Ok(true)
+        } else {
+            // Not a submodule commit line after all: an ordinary hunk line.
+            Ok(false)
         }
-        Ok(true)
     }
 }
 
